@@ -237,12 +237,21 @@ def handmade_corpus() -> list[tuple[bytes, bytes]]:
             for pl in (b"", b"x", lb, lb + lb, b"--", look[:-1], b"ab" + lb + b"cd", b"q" * 20 + lb):
                 out.append((build_body([(b"a", None, None, pl), (b"b", b"f", None, pl + b"z")], bnd, lb=lb, lead=False), bnd))
             out.append((build_body([(b"a", None, None, None)], bnd, lb=lb, lead=False), bnd))
+    # boundaries over the whole RFC 2046 bchars alphabet (digits, letters and '()+_,-./:=? and inner spaces): the
+    # boundary text reaches regular expressions in the decoder, so characters special there are a dimension of their own
+    for bnd in (b"(a+b)?c.d", b"----=_NextPart+000_0012", b"a'b:c=d,e/f g", b"?", b"+"):
+        look = b"--" + bnd
+        for pl in (b"", b"first value", b"\r\n", look[:-1], look + b"x", b"\r\n" + look[:-1], b"a\r\nb\r", b"tail\r\n--", bytes(range(256))):
+            out.append((build_body([(b"a", None, None, pl), (b"f", b"f.bin", None, pl + b"z")], bnd, lead=False), bnd))
+        out.append((build_body([(b"a", None, None, b"v")], bnd, pre=b"preamble", epi=b"epilogue"), bnd))
+        for lb in (b"\n", b"\r"):
+            out.append((build_body([(b"a", None, None, b"x"), (b"b", b"f", None, b"yz")], bnd, lb=lb, lead=False), bnd))
     return out
 
 
 def random_body(rng: random.Random) -> tuple[bytes, bytes]:
     bl = rng.choice([1, 2, 3, 5, 8, 20, 40, 70])
-    bnd = bytes(rng.choice(b"abcdefXYZ0123456789-_") for _ in range(bl))
+    bnd = bytes(rng.choice(b"abcdefXYZ0123456789-_" if rng.random() < 0.6 else b"abXY09-_'()+,./:=? ") for _ in range(bl))
     if bnd.endswith(b" "):
         bnd = bnd[:-1] + b"x"
     look = b"--" + bnd
@@ -268,6 +277,14 @@ def random_body(rng: random.Random) -> tuple[bytes, bytes]:
     epi = rng.choice([b"", b"", b"epi"])
     lead = True if pre else rng.random() < 0.5
     return build_body(parts, bnd, lb=style, pre=pre, epi=epi, lead=lead), bnd
+
+
+def ctype_for(bnd: bytes) -> str:
+    """Content-Type header value declaring the boundary (quoted when it is not an RFC 7230 token)."""
+    t = bnd.decode("latin-1")
+    if t and all(c.isalnum() or c in "!#$%&'*+-.^_`|~" for c in t):
+        return "multipart/form-data; boundary=" + t
+    return 'multipart/form-data; boundary="' + t + '"'
 
 
 # ------------------------------------------------------------------------------ schedules
